@@ -6,7 +6,7 @@
 (***************************************************************************)
 EXTENDS Remote, TLC
 CONSTANT MaxRcpt
-Classes == {"ok", "odd", "4", "5", "drop"}
+Classes == {"ok", "odd", "4", "5", "drop", "junk"}
 VARIABLES s, stage
 vars == <<s, stage>>
 Init == s = [greet |-> "ok", helo |-> "ok", mail |-> "ok", rcpt |-> <<>>, data |-> "ok", dot |-> "ok"] /\ stage = "greet"
